@@ -140,7 +140,14 @@ impl History for AdjEngine {
             _ => 3,
         };
         if size_class == 3 && width != Width::U8 {
-            size_class = 2;
+            // wider index types: now and then a graph of several hundred to a good thousand
+            // elements (bitset words, growth steps and counters of every size get crossed)
+            size_class = if rng.chance(1, 3) { 4 } else { 2 };
+        }
+        if size_class == 4 && self.mode == Mode::Visit {
+            // the visit battery compares every pair of nodes in some twenty views: a thousand
+            // nodes there would take minutes per state
+            size_class = 5;
         }
         let cap = if rng.chance(1, 3) {
             Some((rng.below(20), rng.below(40)))
@@ -161,7 +168,7 @@ impl History for AdjEngine {
             }
         }
         let base = if tier == Tier::Thorough { 28 } else { 18 };
-        let len = if size_class == 3 {
+        let len = if size_class >= 3 {
             rng.range(6, 40)
         } else {
             rng.geometric(1, base, 90)
@@ -248,12 +255,27 @@ impl Ctx<'_> {
             0 => 4,
             1 => 12,
             2 => 40,
-            _ => 255,
+            3 => 255,
+            5 => 200,
+            _ => 1500,
         }
     }
-    fn plan(&mut self) -> ObsPlan {
+    /// `all_nodes`: probe every live node even in a large graph (needed when the model has to
+    /// adopt the physical list order of every node)
+    fn plan(&mut self, all_nodes: bool) -> ObsPlan {
         let live = self.m.live_nodes();
-        let mut nodes = live.clone();
+        let large = live.len() > 300 && !all_nodes;
+        let mut nodes = if large {
+            // per-node and per-edge probes on a sample; the whole-graph listings stay complete
+            let mut v: Vec<usize> = (0..40).map(|_| live[self.obs_rng.below(live.len())]).collect();
+            v.push(live[0]);
+            v.push(*live.last().unwrap());
+            v.sort();
+            v.dedup();
+            v
+        } else {
+            live.clone()
+        };
         let slots = self.m.nodes.len();
         // absent probes: vacancies, the bound, beyond, the end marker
         for v in self.m.vacant_nodes().into_iter().take(3) {
@@ -266,7 +288,17 @@ impl Ctx<'_> {
                 nodes.push(x);
             }
         }
-        let mut edges: Vec<usize> = (0..self.m.edges.len()).collect();
+        let mut edges: Vec<usize> = if large && self.m.edges.len() > 200 {
+            let ne = self.m.edges.len();
+            let mut v: Vec<usize> = (0..120).map(|_| self.obs_rng.below(ne)).collect();
+            v.push(0);
+            v.push(ne - 1);
+            v.sort();
+            v.dedup();
+            v
+        } else {
+            (0..self.m.edges.len()).collect()
+        };
         for x in [self.m.edges.len(), self.m.edges.len() + 2, mx] {
             let x = x.min(mx);
             if !edges.contains(&x) {
@@ -372,6 +404,20 @@ pub fn check_obs(m: &AdjModel, o: &Obs, plan: &ObsPlan) -> Result<(), (&'static 
     let mut err = er.clone();
     err.reverse();
     ensure!("edge_references_rev", o.edge_refs_rev == err, "edge_references().rev() = {:?}, model {:?}", o.edge_refs_rev, err);
+    ensure!("node_indices_double_ended", o.node_indices_meet == live_n, "node_indices() consumed from both ends = {:?}, model {:?}", o.node_indices_meet, live_n);
+    ensure!("edge_indices_double_ended", o.edge_indices_meet == live_e, "edge_indices() consumed from both ends = {:?}, model {:?}", o.edge_indices_meet, live_e);
+    ensure!("node_references_double_ended", o.node_refs_meet == nr, "node_references() consumed from both ends = {:?}, model {:?}", o.node_refs_meet, nr);
+    ensure!("edge_references_double_ended", o.edge_refs_meet == er, "edge_references() consumed from both ends = {:?}, model {:?}", o.edge_refs_meet, er);
+    for (k, (name, len)) in [("node_indices", live_n.len()), ("edge_indices", live_e.len()), ("node_references", live_n.len()), ("edge_references", live_e.len())].into_iter().enumerate() {
+        if let Some(&(lo, hi)) = o.size_hints.get(k) {
+            ensure!("size_hint", lo <= len && hi.map_or(true, |h| h >= len), "{}().size_hint() = ({}, {:?}) but it yields {} items", name, lo, hi, len);
+        }
+    }
+    ensure!("iterator-protocol", o.protocol.is_empty(), "{}", o.protocol.join("; "));
+    for &(is_node, i, w) in &o.index_reads {
+        let exp = if is_node { m.node(i).map(|n| n.w) } else { m.edge(i).map(|e| e.w) };
+        ensure!("index", exp == Some(w), "g[{} {}] = {}, model {:?}", if is_node { "node" } else { "edge" }, i, w, exp);
+    }
     for (e, w, ends, w2) in &o.edge_probe {
         let me = m.edge(*e);
         ensure!("edge_weight", *w == me.map(|x| x.w), "edge_weight({}) = {:?}, model {:?}", e, w, me.map(|x| x.w));
@@ -586,6 +632,21 @@ fn gen_op(rng: &mut Rng, cx: &Ctx, stable: bool) -> Op {
     let mcount = cx.m.m_live();
     let maxn = cx.max_nodes();
     // capacity runs start by filling up
+    if cx.cfg.size_class == 4 && cx.step < 2 {
+        return if cx.step == 0 {
+            Op::BulkNodes(*rng.pick(&[130usize, 300, 520, 1030, 1300]))
+        } else {
+            // now and then several thousand edges (batch code paths that only exist for big inputs)
+            Op::BulkEdges { k: *rng.pick(&[70usize, 260, 600, 1100, 1100, 4200, 5300]), seed: rng.next_u64() }
+        };
+    }
+    if cx.cfg.size_class == 5 && cx.step < 2 {
+        return if cx.step == 0 {
+            Op::BulkNodes(*rng.pick(&[66usize, 100, 130]))
+        } else {
+            Op::BulkEdges { k: *rng.pick(&[70usize, 140]), seed: rng.next_u64() }
+        };
+    }
     if cx.cfg.size_class == 3 && cx.step < 2 {
         return if cx.step == 0 {
             Op::BulkNodes(rng.range(245, 256))
@@ -723,7 +784,7 @@ where
                     Err(p) => return cx.fail(kind, "panic", format!("into_edge_type panicked: {}", p)),
                 };
                 cx.m.directed = *directed;
-                let plan = cx.plan();
+                let plan = cx.plan(false);
                 let obs = match catch(|| flipped.snapshot(&plan)) {
                     Ok(o) => o,
                     Err(p) => return cx.fail(kind, "observe-panic", format!("query panicked after into_edge_type: {}", p)),
@@ -789,7 +850,7 @@ fn apply<S: AdjSut>(sut: &mut S, cx: &mut Ctx, op: &Op, kind: &'static str) -> R
     macro_rules! fail {
         ($check:expr, $($arg:tt)*) => { return Err(cx.fail(kind, $check, format!($($arg)*))) };
     }
-    let plan_before = cx.plan();
+    let plan_before = cx.plan(false);
     // snapshot before: used for "an error/None/panic leaves everything unchanged"
     let mut before: Option<Obs> = None;
     let mut need_before = |sut: &S| -> Result<Obs, String> { catch(|| sut.snapshot(&plan_before)) };
@@ -1460,7 +1521,7 @@ fn apply<S: AdjSut>(sut: &mut S, cx: &mut Ctx, op: &Op, kind: &'static str) -> R
             }
         }
         Op::BulkNodes(k) => {
-            for _ in 0..(*k).min(300) {
+            for _ in 0..(*k).min(1400) {
                 if cx.m.node_limit_reached() {
                     break;
                 }
@@ -1482,12 +1543,12 @@ fn apply<S: AdjSut>(sut: &mut S, cx: &mut Ctx, op: &Op, kind: &'static str) -> R
             let mut r = Rng::new(*seed);
             let live = cx.m.live_nodes();
             if !live.is_empty() {
-                for _ in 0..(*k).min(300) {
+                for _ in 0..(*k).min(5400) {
                     if cx.m.edge_limit_reached() {
                         break;
                     }
                     let a = live[r.below(live.len())];
-                    let b = live[r.below(live.len().min(8))];
+                    let b = if live.len() > 300 && r.chance(1, 2) { live[r.below(live.len())] } else { live[r.below(live.len().min(8))] };
                     let w = cx.fresh();
                     match catch(|| sut.add_edge(a, b, w, EdgeMode::TryAdd)) {
                         Ok(Ok(e)) => {
@@ -1507,7 +1568,7 @@ fn apply<S: AdjSut>(sut: &mut S, cx: &mut Ctx, op: &Op, kind: &'static str) -> R
     }
 
     // ---- observation after the step
-    let plan = if expect_unchanged { plan_before } else { cx.plan() };
+    let plan = if expect_unchanged { plan_before } else { cx.plan(need_adopt) };
     let obs = match catch(|| sut.snapshot(&plan)) {
         Ok(o) => o,
         Err(p) => fail!("observe-panic", "a query panicked after {}: {}", kind, p),
